@@ -61,18 +61,19 @@ class SymWorld(BaseWorld):
     # -- variables
     def real(self, name, lo=None, hi=None, lo_strict=False, hi_strict=False):
         v = self.core.fresh_real(name)
+        # range constraints of a fresh variable cannot make the path infeasible unless lo > hi
         if lo is not None:
-            self.E.assume((v > lo) if lo_strict else (v >= lo))
+            self.E.assume((v > lo) if lo_strict else (v >= lo), check=False)
         if hi is not None:
-            self.E.assume((v < hi) if hi_strict else (v <= hi))
+            self.E.assume((v < hi) if hi_strict else (v <= hi), check=False)
         return v
 
     def int(self, name, lo=None, hi=None):
         v = self.core.fresh_int(name)
         if lo is not None:
-            self.E.assume(v >= lo)
+            self.E.assume(v >= lo, check=False)
         if hi is not None:
-            self.E.assume(v <= hi)
+            self.E.assume(v <= hi, check=False)
         return v
 
     def bool(self, name):
